@@ -16,7 +16,7 @@ RULE = ("small random package images (3-10 entries: files, hard-link groups, sym
         "symlinked directories). A dry run numbers the N mutating operations; then for every k in 1..N and every kind "
         "(crash-before, crash-after, EIO; torn for writes) the scenario directory is rebuilt from the scenario (identical data/owner/mode/mtime), the merge is run in a "
         "forked child with the injection, and the parent judges a fresh snapshot: every pre-existing non-directory path "
-        "the set replaces is entirely old or entirely new by (type, data hash, size, mode, uid, gid, mtime | target); "
+        "the set replaces (incl. replacements with byte-identical data but other owner/mode/mtime) is entirely old or entirely new by (type, data hash, size, mode, uid, gid, mtime | target); "
         "every path outside the resolved set is untouched except '<path>#new' siblings. One evaluation = one injected "
         "run. Non-trivial = the injection point lies between the first operation on a '#new' sibling and its rename; "
         "distinct = (scenario shape, k, kind).")
@@ -31,7 +31,7 @@ ASSUMPTIONS = [
 ]
 SHARDS = {"quick": 4, "thorough": 16}
 TIMEOUT = {"quick": 240, "thorough": 1100}
-MIN_EVALS = 150
+MIN_EVALS = 120
 REQUIRED_COUNTERS = ("scenarios_enumerated_completely", "runs:crash-before", "runs:crash-after", "runs:torn", "runs:eio",
                      "replaced_paths_judged", "points_inside_new_window", "state:old", "state:new")
 
@@ -382,9 +382,11 @@ def core_scenario(i):
     pre = [_e("outside", "dir", mode=0o755), _e("outside/ofile", "file", seed=900, size=64, mode=0o640, uid=2, gid=2),
            _e("root", "dir", mode=0o755)]
     i %= 4
-    if i == 0:      # file over file: other size, mode, owner, mtime
-        src = [_e("f", "file", seed=1, size=5000, mode=0o4755, uid=1, gid=2)]
-        pre += [_e("root/f", "file", seed=2, size=100, mode=0o600, uid=250, gid=250, mt=(gen.T0 + 5) * 10**9)]
+    if i == 0:      # file over file: other size, mode, owner, mtime; and byte-identical data with other mode/owner/mtime
+        src = [_e("f", "file", seed=1, size=5000, mode=0o4755, uid=1, gid=2),
+               _e("same", "file", seed=20, size=1200, mode=0o600, uid=1, gid=2, mt=(gen.T0 + 2000) * 10**9)]
+        pre += [_e("root/f", "file", seed=2, size=100, mode=0o600, uid=250, gid=250, mt=(gen.T0 + 5) * 10**9),
+                _e("root/same", "file", seed=20, size=1200, mode=0o644, uid=250, gid=250, mt=(gen.T0 + 5) * 10**9)]
     elif i == 1:    # file over symlink, symlink over file
         src = [_e("a", "file", seed=3, size=300, mode=0o755, uid=1000, gid=1000), _e("b", "link", target="a", uid=1, gid=1)]
         pre += [_e("root/a", "link", target="@W@/outside/ofile"), _e("root/b", "file", seed=4, size=4096, mode=0o444)]
